@@ -204,3 +204,14 @@ def run(facts, rep, ctx):
     rep.rule('SB-5s', 'LCP storage: SmallInts::{push,set,real_value} decide small-vs-big with the same strict comparison '
                       'against S::max_value() (an LCP equal to the small maximum must live in the overflow map)')
     smallints_thresholds(facts, rep, 'SB-5s')
+
+
+_run_before_round2 = run
+
+
+def run(facts, rep, ctx):
+    """rules added after the second round of independent seeding (rules/round2.py)"""
+    _run_before_round2(facts, rep, ctx)
+    from . import round2
+    round2.nc1(facts, rep)
+
